@@ -77,8 +77,35 @@ def three_points(rng, normal, dval):
     return [float(v) for p in pts for v in p]
 
 
+# indices of the parameters that position a surface (centre / offset), per
+# mnemonic, for the 'zeros' families: exact zeros and coincidences are where
+# special-casing in the converter lives
+POSITION_PARAMS = {
+    'p': [3], 'px': [0], 'py': [0], 'pz': [0], 's': [0, 1, 2], 'sx': [0],
+    'sy': [0], 'sz': [0], 'c/x': [0, 1], 'c/y': [0, 1], 'c/z': [0, 1],
+    'k/x': [0, 1, 2], 'k/y': [0, 1, 2], 'k/z': [0, 1, 2], 'kx': [0],
+    'ky': [0], 'kz': [0], 'sq': [7, 8, 9], 'tx': [0, 1, 2], 'ty': [0, 1, 2],
+    'tz': [0, 1, 2], 'gq': [6, 7, 8],
+}
+for _kind, _idx in POSITION_PARAMS.items():
+    ELEMENTARY_FAMILIES[_kind] = ELEMENTARY_FAMILIES[_kind] + ['zeros']
+
+
 def elementary(rng, kind, family):
     '''Return the parameter list of one card.'''
+    if family == 'zeros':
+        base = rng.choice([f for f in ELEMENTARY_FAMILIES[kind]
+                           if f not in ('zeros',) and not f.startswith('3pt')])
+        par = elementary(rng, kind, base)
+        idx = POSITION_PARAMS[kind]
+        if kind == 'p' and len(par) != 4:
+            return par
+        for i in rng.sample(idx, rng.randint(1, len(idx))):
+            par[i] = 0.0
+        if kind in ('kx', 'ky', 'kz', 'k/x', 'k/y', 'k/z') and \
+                rng.random() < 0.5:
+            par[1 if '/' not in kind else 3] = 1.0      # t^2 = 1 exactly
+        return par
     k = kind
     if k == 'p':
         if family == 'general':
